@@ -33,6 +33,10 @@ def template(kind='vars', extra='', lit=None):
             src = SRC_VARS % extra
         elif kind == 'plain':
             src = SRC_PLAIN % extra
+        elif kind == 'rv0':            # a reverse_expr that evaluates false: nothing is to be reversed
+            src = SRC_VARS.replace('overlap=ov>', 'overlap=ov reverse_expr="rv0">') % extra
+        elif kind == 'plainrv0':
+            src = SRC_PLAIN.replace('<dtml-in seq>', '<dtml-in seq reverse_expr="rv0 and rv0">') % extra
         elif kind == 'lit':
             src = ('<dtml-in seq start=%d end=%d size=%d orphan=%d overlap=%d>' % lit +
                    ROW % extra + '<dtml-else>EMPTY</dtml-in>')
@@ -160,12 +164,12 @@ def observe(par, kind='vars', seqkind='list', as_str=False, extra=''):
     if kind == 'lit':
         t = template('lit', extra, (start, end, size, orphan, overlap))
         kw = {}
-    elif kind == 'plain':
-        t = template('plain', extra)
-        kw = {}
+    elif kind in ('plain', 'plainrv0'):
+        t = template(kind, extra)
+        kw = {'rv0': 0}
     else:
         t = template(kind, extra)
-        kw = dict(st=conv(start), en=conv(end), sz=conv(size), orp=conv(orphan), ov=conv(overlap))
+        kw = dict(st=conv(start), en=conv(end), sz=conv(size), orp=conv(orphan), ov=conv(overlap), rv0=0)
     obs = {'p': list(par), 'e': 0, 'c': 0, 'r': [], 'pl': 0, 'ln': 0}
     try:
         out = t(seq=seq, pulls=pulls, **kw)
